@@ -45,8 +45,9 @@ def generate(rng, tier):
     ufs = _ufuncs()
     ops = []
     for _ in range(rng.randint(5, 14)):
-        t = rng.choices(['call', 'method', 'setitem', 'legacy', 'wrap'],
-                        [6, 4, 2, 2, 1])[0]
+        t = rng.choices(['call', 'method', 'setitem', 'legacy', 'wrap',
+                         'legacy_reduce', 'asarray_out'],
+                        [6, 4, 2, 2, 1, 1, 1])[0]
         op = {'t': t}
         h = lambda: [rng.randrange(nst), rng.choice(HANDLES)]
         if t in ('call', 'legacy'):
@@ -62,6 +63,9 @@ def generate(rng, tier):
                              for _ in range(nout)]
                 if nout == 2:
                     op['out'][1] = h()
+            if nout == 2 and op['out'] and rng.random() < 0.4:
+                # only one of the two outs is given
+                op['out'][rng.randrange(2)] = None
             if nin == 2 and rng.random() < 0.25:
                 op['scalar_second'] = rng.choice([2, 0.5, -1])
             if rng.random() < 0.1:
@@ -71,14 +75,15 @@ def generate(rng, tier):
                 # kind of x (element / tensor) or a plain array
                 op['ins'][0][1] = rng.choice(['elem', 'tens'])
                 for o_ in (op['out'] or []):
-                    o_[1] = rng.choice([op['ins'][0][1], 'arr'])
+                    if o_ is not None:
+                        o_[1] = rng.choice([op['ins'][0][1], 'arr'])
         elif t == 'method':
             name = rng.choice(['add', 'multiply', 'maximum', 'minimum',
                                'subtract', 'logaddexp', 'hypot',
                                'logical_and', 'bitwise_or'])
             m = rng.choice(METHODS)
             op.update({'uf': name, 'm': m, 'ins': [h(), h()],
-                       'axis': rng.choice([None, 0, -1, 0]),
+                       'axis': rng.choice([None, 0, -1, 0, 1, [0, 1], [0, -1]]),
                        'keepdims': rng.random() < 0.3,
                        'out': h() if rng.random() < 0.3 else None})
             if rng.random() < 0.15:
@@ -90,8 +95,19 @@ def generate(rng, tier):
             op['at_val'] = rng.choice([2, 1, -1, 3])
         elif t == 'setitem':
             op.update({'h': h(), 'idx': rng.choice(['all', 'first', 'last',
-                                                    'slice']),
-                       'val': rng.choice([0, 1.5, -2, 7])})
+                                                    'slice', 'mask']),
+                       'val': rng.choice([0, 1.5, -2, 7, 'elem', 'arr'])})
+            op['src'] = rng.randrange(nst)
+        elif t == 'legacy_reduce':
+            op.update({'h': [rng.randrange(nst), rng.choice(['elem', 'tens'])],
+                       'name': rng.choice(['sum', 'prod', 'min', 'max']),
+                       'axis': rng.choice([None, 0, -1, 1]),
+                       'keepdims': rng.random() < 0.2,
+                       'out': rng.random() < 0.3,
+                       'dtype': rng.choice([None, None, 'float64'])})
+        elif t == 'asarray_out':
+            op.update({'s': rng.randrange(nst),
+                       'order': rng.choice(['C', 'F'])})
         elif t == 'wrap':
             op['s'] = rng.randrange(nst)
         op['fill'] = rng.choice(GARBAGE)
@@ -233,14 +249,43 @@ class Run(object):
             return self.call(op)
         if t == 'method':
             return self.method(op)
+        if t == 'legacy_reduce':
+            return self.legacy_reduce(op)
+        if t == 'asarray_out':
+            return self.asarray_out(op)
         raise HarnessError(t)
 
     def setitem(self, op):
         s, hk = op['h']
         st = self.stores[s]
-        idx = {'all': slice(None), 'first': 0, 'last': -1,
-               'slice': slice(0, 2)}[op['idx']]
+        if op['idx'] == 'mask':
+            idx = np.abs(st.model) > np.median(np.abs(st.model))
+        else:
+            idx = {'all': slice(None), 'first': 0, 'last': -1,
+                   'slice': slice(0, 2)}[op['idx']]
         val = op['val']
+        if val in ('elem', 'arr'):
+            if op['idx'] != 'all':
+                raise Reject('whole-element assignment only')
+            src = self.stores[op.get('src', 0) % len(self.stores)]
+            mval = np.array(src.model, copy=True)
+            val = src.elem if val == 'elem' else np.array(src.arr, copy=True)
+            try:
+                st.model[idx] = mval
+            except Exception:
+                raise Reject('numpy rejects')
+            h = st.handle(hk)
+            try:
+                h[idx] = val
+            except Exception as e:
+                self.viol('setitem-raise', self.kind + '/' + hk,
+                          'h[:] = <{}> through handle {!r} raised {}: {}'
+                          ''.format(op['val'], hk, type(e).__name__,
+                                    str(e)[:120]))
+            self.ctx.event('setitem', s, hk, op['idx'], op['val'])
+            self.ctx.covered('setitem', hk, op['idx'], op['val'], self.kind,
+                             str(self.S.dtype))
+            return
         if np.dtype(self.S.dtype).kind in 'iu':
             val = int(val)
         try:
@@ -280,7 +325,10 @@ class Run(object):
         """Garbage into out storages that are not inputs (mirrored into the
         model so that partially written outs still compare)."""
         in_s = set(s for s, _ in ins)
-        for t, (s, hk) in enumerate(outs or []):
+        for t, o_ in enumerate(outs or []):
+            if o_ is None:
+                continue
+            s, hk = o_
             if s not in in_s:
                 st = self.stores[s]
                 used = fill_garbage(st.arr, op['fill'], t)
@@ -301,9 +349,12 @@ class Run(object):
             kw['dtype'] = op['dtype']
         m_out = r_out = None
         if outs:
-            m_out = tuple(self.stores[s].model for s, _ in outs)
-            r_out = tuple(self.stores[s].handle(hk) for s, hk in outs)
-            if len(set(id(x) for x in m_out)) != len(m_out):
+            given = [o_ for o_ in outs if o_ is not None]
+            m_out = tuple(None if o_ is None else self.stores[o_[0]].model
+                          for o_ in outs)
+            r_out = tuple(None if o_ is None else
+                          self.stores[o_[0]].handle(o_[1]) for o_ in outs)
+            if len(set(id(x) for x in m_out if x is not None)) != len(given):
                 raise Reject('same storage twice as out')
         # the model: NumPy on copies of the inputs (aliasing preserved by
         # passing the very model arrays)
@@ -322,7 +373,8 @@ class Run(object):
         # a handle that is a *view* created before (asarray) is fine as out;
         # the element's first input decides the dispatch
         first_elem = any(hasattr(x, 'space') for x in r_in) or (
-            r_out and any(hasattr(x, 'space') for x in r_out))
+            r_out and any(hasattr(x, 'space') for x in r_out
+                          if x is not None))
         if not first_elem:
             # plain NumPy on plain arrays: nothing of odl is involved
             with np.errstate(all='ignore'):
@@ -336,7 +388,8 @@ class Run(object):
             with seams.allocator(self.gk, salt=41, fired=fired):
                 if legacy:
                     x0 = r_in[0]
-                    if not hasattr(x0, 'ufuncs') or kw:
+                    if not hasattr(x0, 'ufuncs') or kw or (
+                            r_out and any(x is None for x in r_out)):
                         raise Reject('legacy form needs an element first')
                     fn = getattr(x0.ufuncs, op['uf'])
                     args = r_in[1:]
@@ -382,7 +435,7 @@ class Run(object):
                       '{}: {} results, NumPy gives {}'.format(
                           _short(op), len(rs), len(ms)))
         for q, (r, m) in enumerate(zip(rs, ms)):
-            if r_out is not None:
+            if r_out is not None and r_out[q] is not None:
                 if r is not r_out[q]:
                     self.viol('out-identity', site,
                               '{}: the object given as out was not returned'
@@ -433,6 +486,9 @@ class Run(object):
         kw = {}
         if m in ('reduce', 'accumulate', 'reduceat'):
             ax = op.get('axis')
+            if isinstance(ax, list):
+                # axis tuples are a feature of reduce only
+                ax = tuple(ax) if m == 'reduce' else ax[-1]
             if m == 'reduce':
                 kw['axis'] = ax
                 if op.get('keepdims'):
@@ -452,7 +508,10 @@ class Run(object):
             idx = [i % n0 for i in op.get('at_idx', [0, n0 - 1])]
             extra = [idx] if uf.nin == 1 else [idx, op.get('at_val', 2)]
         if m == 'reduceat':
-            extra = [[0, max(0, m_in[0].shape[kw['axis']] - 1)]]
+            try:
+                extra = [[0, max(0, m_in[0].shape[kw['axis']] - 1)]]
+            except IndexError:
+                raise Reject('axis out of range')
         m_out = r_out = None
         if out:
             # the out array must have the result's shape: use a fresh array
@@ -501,6 +560,79 @@ class Run(object):
         self.ctx.covered(op['uf'], m, 'out' if out_arr is not None else 'noout',
                          str(kw.get('axis')), str(kw.get('keepdims')),
                          str(self.S.dtype), self.kind)
+
+
+def _legacy_reduce(self, op):
+    s, hk = op['h']
+    st = self.stores[s]
+    x = st.handle(hk)
+    if not hasattr(x, 'ufuncs'):
+        raise Reject('no element')
+    name = op['name']
+    npf = {'sum': np.add, 'prod': np.multiply, 'min': np.minimum,
+           'max': np.maximum}[name]
+    kw = {'axis': op['axis'], 'keepdims': bool(op['keepdims'])}
+    if op.get('dtype'):
+        kw['dtype'] = op['dtype']
+    if self.kind == 'discr' and kw['keepdims']:
+        raise Reject('documented ValueError')
+    try:
+        with np.errstate(all='ignore'):
+            m_res = npf.reduce(st.model, **kw)
+    except Exception:
+        raise Reject('numpy rejects')
+    out_arr = None
+    if op.get('out') and isinstance(m_res, np.ndarray):
+        out_arr = np.empty(m_res.shape, dtype=m_res.dtype)
+        fill_garbage(out_arr, op['fill'], 5)
+    site = '{}/legacy.{}'.format(self.kind, name)
+    try:
+        with seams.allocator(self.gk, salt=44):
+            res = getattr(x.ufuncs, name)(out=out_arr, **kw)
+    except Exception as e:
+        self.viol('raise', site + '/' + type(e).__name__,
+                  'x.ufuncs.{}({}) raised {}: {} although NumPy accepts the '
+                  'reduction on the underlying array'.format(
+                      name, kw, type(e).__name__, str(e)[:160]))
+    if out_arr is not None:
+        if res is not out_arr:
+            self.viol('out-identity', site, 'out array not returned')
+        if _bits(out_arr) != _bits(m_res):
+            self.viol('value', site, 'x.ufuncs.{}({}, out=) differs from '
+                      'NumPy'.format(name, kw))
+    else:
+        self._compare(res, m_res, None, site, op)
+    self.ctx.event('legacy_reduce', name, str(kw))
+    self.ctx.covered('legacy.' + name, str(op['axis']), str(op['keepdims']),
+                     'out' if out_arr is not None else 'noout',
+                     str(self.S.dtype), self.kind)
+
+
+def _asarray_out(self, op):
+    st = self.stores[op['s']]
+    out = np.empty(st.model.shape, dtype=st.model.dtype, order=op['order'])
+    fill_garbage(out, op['fill'], 6)
+    try:
+        res = st.elem.asarray(out=out)
+    except Exception as e:
+        self.viol('raise', self.kind + '/asarray-out/' + type(e).__name__,
+                  'x.asarray(out=<{}-ordered array>) raised {}: {}'.format(
+                      op['order'], type(e).__name__, str(e)[:120]))
+    if res is not out:
+        self.viol('out-identity', self.kind + '/asarray-out',
+                  'x.asarray(out=arr) did not return arr')
+    if not np.array_equal(out, st.model, equal_nan=True):
+        self.viol('value', self.kind + '/asarray-out',
+                  'x.asarray(out=arr) did not copy the values')
+    if np.shares_memory(out, st.arr):
+        self.viol('asarray-out-shares', self.kind,
+                  'x.asarray(out=arr): arr shares memory with the element')
+    self.ctx.event('asarray_out', op['s'], op['order'])
+    self.ctx.covered('asarray_out', op['order'], self.kind, str(self.S.dtype))
+
+
+Run.legacy_reduce = _legacy_reduce
+Run.asarray_out = _asarray_out
 
 
 def _execute_power(plan, ctx, base):
@@ -616,11 +748,13 @@ def _short(op):
 def _outkind(r_out):
     if not r_out:
         return 'noout'
-    return '+'.join('elem' if hasattr(x, 'space') else 'array' for x in r_out)
+    return '+'.join('none' if x is None else
+                    'elem' if hasattr(x, 'space') else 'array' for x in r_out)
 
 
 def _alias(ins, outs):
     if not outs:
         return '-'
     in_s = [s for s, _ in ins]
-    return 'alias' if any(s in in_s for s, _ in outs) else 'distinct'
+    return 'alias' if any(o_ is not None and o_[0] in in_s
+                          for o_ in outs) else 'distinct'
